@@ -136,3 +136,26 @@ Proof.
   unfold sent_color, rf_raw_color, rf_get_color. rewrite Hm. cbn [bind as_raw_color]. rewrite Hh, Hs, Hb, Hk.
   unfold param_color. cbn [map_res]. rewrite !param_16_raw by assumption. reflexivity.
 Qed.
+
+(* ---------- the compiled snapshot of plain lights runs as the reference semantics says ---------- *)
+From Bardolph Require Import Lang.Instr Lang.Loader Lang.Machine Lang.Sem Lang.CodeGen Lang.ExprCompile Lang.Simulation.
+
+Definition plain_only (p : population) : bool :=
+  forallb (fun d => match dv_state d with DPlain _ _ => true | _ => false end) p.
+
+Lemma plain_snapshot_is_straightline mt p : plain_only p = true -> forallb (simple_atom mt) (snapshot_ast p) = true.
+Proof.
+  intros Hp. unfold snapshot_ast. cbn [forallb simple_atom andb].
+  induction p as [|d r IH]; [reflexivity|]. cbn [plain_only forallb] in Hp. apply andb_true_iff in Hp. destruct Hp as [Hd Hr].
+  cbn [flat_map]. rewrite forallb_app, (IH Hr), andb_true_r.
+  unfold device_stmts. destruct (dv_state d) as [c pw| |]; try discriminate. destruct pw; reflexivity.
+Qed.
+
+Theorem plain_snapshot_runs_as_its_source_says (p : population) (w : world) (fuel : nat) (evs : list event) :
+  plain_only p = true -> (seq_size (snapshot_ast p) <= fuel)%nat ->
+  run_src fuel (snapshot_ast p) w = SFinished evs ->
+  exists k, run_program k (compile (snapshot_ast p)) w = Finished evs.
+Proof.
+  intros Hp Hf Hr. apply (straightline_program_runs_as_its_source_says (snapshot_ast p) w fuel evs); [|exact Hf|exact Hr].
+  apply plain_snapshot_is_straightline. exact Hp.
+Qed.
